@@ -3,7 +3,7 @@
    Only `exact` here. *)
 From Coq Require Import List QArith ZArith Bool NArith Permutation.
 From VP Require Import Base.Util Base.Dim Base.Val Model.CollectQ Model.CollectE Proofs.DimProofs Proofs.CollectQProofs
-  Proofs.CollectEProofs.
+  Proofs.CollectEProofs Proofs.CollectQGlobal Proofs.DiagramProofs.
 Import ListNotations.
 
 (* sums, min and max: accepted exactly when the terms that are not of any dimension (0, +-oo, nan) have pairwise
@@ -102,3 +102,18 @@ Theorem C06_zero_first_accepted :
   infer_e (SAdd [SNum (VQ 0); SDimSym e_length]) = Ok (VSym, e_length).
 Proof. exact zero_first_accepted. Qed.
 Print Assumptions C06_zero_first_accepted.
+
+(* ---- inference agrees with evaluation on quantities ------------------------------------------------
+   "whenever it succeeds, replacing the symbols by non-zero quantities of their declared dimensions yields (function
+   arguments being dimensionless) a quantity of that same dimension".  Inst e q: q is e with every dimensioned symbol
+   replaced by some quantity of its declared dimension (each occurrence its own value); scopeb: function arguments
+   dimensionless, literal rational exponents, no plain symbols / derivatives, and (the part that makes this theorem PARTIAL)
+   no sum that cancels to a literal 0 for the inference while a term is not literally 0; Fin q: all sub-values finite.
+   The full statement (scopeb_full, without the last clause) is `infer_then_collect_full_statement` in
+   Proofs/DiagramProofs.v; it is not proved. *)
+Theorem C06_infer_then_collect_partial : forall e q rv d,
+  scopeb e = true -> Inst e q -> Fin q -> infer_e e = Ok (rv, d) ->
+  exists v d', collect q = Ok (v, d') /\ v = value q /\ finite_val v = true /\
+               wf_dim d /\ wf_dim d' /\ (is_any v = true \/ deq d' d).
+Proof. exact infer_then_collect. Qed.
+Print Assumptions C06_infer_then_collect_partial.
